@@ -137,7 +137,13 @@ pub fn codec(r: &mut Rng, n: u64, thorough: bool, out: &mut Out) {
             6..=8 => r.range(4, 12),
             _ => *r.pick(&[63u64, 64, 65]),
         } as u32;
-        let reg = if i % 2 == 0 { gen::wild_registry(r, size) } else { gen::wf_registry(r, size) };
+        let reg = if i % 7 == 3 {
+            gen::tiny_registry(r, size.max(1) * 3)
+        } else if i % 2 == 0 {
+            gen::wild_registry(r, size)
+        } else {
+            gen::wf_registry(r, size)
+        };
         let (bytes, s) = run_enc(&reg);
         out.line(&format!("codec {} {}", case, s));
         case += 1;
